@@ -270,7 +270,8 @@ pub fn run_case(model: &mut Model, fixed: bool, c: &Case, mut rep: Option<&mut R
         let ans = &answers[i + 2];
         if let Some(o) = o {
             if let Some(r) = rep.as_deref_mut() {
-                r.eval();
+                // every edge time is one exact comparison, plus status/stop time of the run
+                r.evaluations += o.edges.len() as u64 + 1;
                 r.count_n("edges_compared", "edges", o.edges.len() as u64);
             }
             let got = o.text();
@@ -439,7 +440,7 @@ fn shrink(model: &mut Model, fixed: bool, c: &Case, key: &str) -> Case {
                     cands.push(Case { tape: [encode(&b), tail.clone()].concat(), ..cur.clone() });
                 }
             }
-            if blocks[i].iter().skip(1).any(|v| *v != 0) || blocks[i][0] != 0xFF {
+            if !blocks[i].is_empty() && (blocks[i].iter().skip(1).any(|v| *v != 0) || blocks[i][0] != 0xFF) {
                 let mut b = blocks.clone();
                 for v in b[i].iter_mut() {
                     *v = 0;
